@@ -7,6 +7,7 @@ import (
 	"go/types"
 	"math/big"
 	"strings"
+	"sync"
 )
 
 // sort overrides for library types whose representation we do not want to see.
@@ -240,9 +241,12 @@ func (s *Sorts) StrLit(v string) Term {
 }
 
 var strIDs = map[string]int{}
+var strMu sync.Mutex
 
 func (s *Sorts) strID(v string) int {
 	s.d.DeclareFun("str.id", []string{SStr}, SInt)
+	strMu.Lock()
+	defer strMu.Unlock()
 	if id, ok := strIDs[v]; ok {
 		return id
 	}
